@@ -11,8 +11,9 @@ well-formedness conditions, each of which speaks about the grid alone:
 
 The theorem composes the ingredients of `Aux20` (bounded heap = k smallest, skipping a cell is safe, ring bound): whatever
 the early exits (skipped cells, termination test) do, the result equals the plain fold of `insertK` over ALL particles
-of ALL rings.  What is not proved here: that `mkSpace true` produces a grid with `hbox / hend / hfar` (index arithmetic of
-`get_r_ring` and of the binning by `floor`); the driver checks `hbox` and the partition property on every grid it builds.
+of ALL rings.  That `mkSpace true` produces a grid with `hbox / hend / hfar / hpart` (index arithmetic of `get_r_ring` and of the binning by
+`floor`) is proved in `GridWF`, `RingWF` and `KnnFull` (`knn_mkSpace_eq_spec`); the driver still checks `hbox` and the partition
+property on every grid it builds.
 -/
 import MVoro.Proofs.Aux20
 
